@@ -33,7 +33,7 @@ def main():
     os.makedirs(os.path.join(proj, "src"), exist_ok=True)
     open(os.path.join(proj, "Cargo.toml"), "w").write(
         '[package]\nname = "demo"\nversion = "0.1.0"\nedition = "2021"\n[dependencies]\npetgraph = { path = "%s", features = ["serde-1"] }\n'
-        'serde_json = "1"\n[workspace]\n' % wt)
+        'serde_json = "1"\nbincode = "1.3"\n[workspace]\n' % wt)
     rc, out = sh("git status --short", cwd=wt)
     if out.strip():
         sh("git checkout -- .", cwd=wt)
